@@ -3,23 +3,24 @@
 # Confirms a seeded change independently: it applies, compiles, the demonstration fails with it and
 # passes without it, and the repository's own test suite still gives the baseline result.
 sa=$1; work=$2; notests=$3
+export TREE=$sa
 cd "$sa" || exit 2
-git checkout -q -- . || exit 2
+git checkout -q -- src include tools || exit 2
 echo "== demo WITHOUT the change"
 make -j8 >/dev/null 2>&1
-( cd "$work" && timeout 1200 bash ./demo.sh ) >/tmp/confirm_without.log 2>&1; rc0=$?
+( cd "$work" && timeout 1200 bash ./demo.sh ) >$work/confirm_without.log 2>&1; rc0=$?
 echo "   demo exit $rc0 (expected 0)"
 echo "== apply"
 git apply "$work/patch.diff" || { echo "patch does not apply"; exit 1; }
 git diff --stat | tail -3
-make -j8 >/tmp/confirm_build.log 2>&1 || { echo "does not compile"; tail -5 /tmp/confirm_build.log; git checkout -q -- .; exit 1; }
+make -j8 >$work/confirm_build.log 2>&1 || { echo "does not compile"; tail -5 $work/confirm_build.log; git checkout -q -- .; exit 1; }
 echo "== demo WITH the change"
-( cd "$work" && timeout 1200 bash ./demo.sh ) >/tmp/confirm_with.log 2>&1; rc1=$?
+( cd "$work" && timeout 1200 bash ./demo.sh ) >$work/confirm_with.log 2>&1; rc1=$?
 echo "   demo exit $rc1 (expected non-zero)"
 if [ -z "$notests" ]; then
   echo "== repository test suite WITH the change"
-  timeout 3000 make -C tests check -j8 >/tmp/confirm_tests.log 2>&1
-  pass=$(grep -c '^PASS:' /tmp/confirm_tests.log); fail=$(grep '^FAIL:' /tmp/confirm_tests.log | sort | tr '\n' ' ')
+  timeout 3000 make -C tests check -j8 >$work/confirm_tests.log 2>&1
+  pass=$(grep -c '^PASS:' $work/confirm_tests.log); fail=$(grep '^FAIL:' $work/confirm_tests.log | sort | tr '\n' ' ')
   echo "   PASS=$pass FAIL: $fail"
 fi
 git checkout -q -- .
